@@ -603,3 +603,87 @@ Definition run_rcase (c : rcase) : list (list Z) := run_rounds (rc_script c) (rc
 Inductive anycase := Plain (c : case) | Reentrant (c : rcase).
 Definition run_any (a : anycase) : list (list Z) :=
   match a with Plain c => run_case c | Reentrant c => run_rcase c end.
+
+(* ------------------------------------------------------------------ re-entrancy with assignments from handlers
+   A handler may also assign to the observable being notified (conditionally on signal.new, otherwise the recursion
+   never ends).  Observable.__set__ notifies BEFORE it stores, so the nested assignment (1) reads as `old` the value
+   stored before the OUTER assignment, (2) runs its whole notification - over the list object currently in the
+   registry, i.e. the one the outer loop is walking unless an unobserve replaced it - and replaces the registry by
+   its own active list, (3) stores its value; the outer loop then goes on over the old list object, overwrites the
+   registry with its own active list and finally stores the outer value: the outer store wins.  Recorded, not claimed. *)
+Inductive haction2 := ANop | AObserve (h : Z) | AUnobserve (h : Z) | AAssignIf (trigger w : Z).
+Record world := { w_reg : list Z; w_val : Z; w_calls : list (Z * Z * Z) }.   (* calls: handler, signal.old, signal.new *)
+Record rstate2 := { q_iter : list Z; q_reg : list Z; q_same : bool; q_active : list Z; q_val : Z; q_calls : list (Z * Z * Z) }.
+Fixpoint script_get2 (sc : list (Z * haction2)) (h : Z) : haction2 :=
+  match sc with [] => ANop | (k, a) :: t => if h =? k then a else script_get2 t h end.
+
+(* assign_re: `owner.x = v`;   walk: the loop of _mesa_notify for the signal (old, new) from position pos.
+   Both return the walked list object as it is at the end (handlers may have appended to it). *)
+Fixpoint assign_re (fuel : nat) (sc : list (Z * haction2)) (v : Z) (w : world) : option (world * list Z) :=
+  match fuel with
+  | O => None
+  | S f =>
+      match walk f sc (w_val w) v 0
+                 {| q_iter := w_reg w; q_reg := w_reg w; q_same := true; q_active := []; q_val := w_val w; q_calls := w_calls w |} with
+      | Some st => Some ({| w_reg := q_active st; w_val := v; w_calls := q_calls st |}, q_iter st)
+      | None => None
+      end
+  end
+with walk (fuel : nat) (sc : list (Z * haction2)) (old new : Z) (pos : nat) (st : rstate2) : option rstate2 :=
+  match fuel with
+  | O => None
+  | S f =>
+      match nth_error (q_iter st) pos with
+      | None => Some st
+      | Some h =>
+          let st1 := {| q_iter := q_iter st; q_reg := q_reg st; q_same := q_same st; q_active := q_active st; q_val := q_val st;
+                        q_calls := q_calls st ++ [(h, old, new)] |} in
+          let st2 :=
+            match script_get2 sc h with
+            | ANop => Some st1
+            | AObserve h' =>
+                if q_same st1
+                then Some {| q_iter := q_iter st1 ++ [h']; q_reg := q_reg st1 ++ [h']; q_same := true; q_active := q_active st1;
+                             q_val := q_val st1; q_calls := q_calls st1 |}
+                else Some {| q_iter := q_iter st1; q_reg := q_reg st1 ++ [h']; q_same := false; q_active := q_active st1;
+                             q_val := q_val st1; q_calls := q_calls st1 |}
+            | AUnobserve h' =>
+                Some {| q_iter := q_iter st1; q_reg := filter (fun x => negb (x =? h')) (q_reg st1); q_same := false;
+                        q_active := q_active st1; q_val := q_val st1; q_calls := q_calls st1 |}
+            | AAssignIf trig w' =>
+                if new =? trig then
+                  match assign_re f sc w' {| w_reg := q_reg st1; w_val := q_val st1; w_calls := q_calls st1 |} with
+                  | Some (wd, obj) =>
+                      Some {| q_iter := if q_same st1 then obj else q_iter st1;   (* the nested loop walked (and may have grown) our object *)
+                              q_reg := w_reg wd; q_same := false; q_active := q_active st1; q_val := w_val wd; q_calls := w_calls wd |}
+                  | None => None
+                  end
+                else Some st1
+            end in
+          match st2 with
+          | None => None
+          | Some st2 =>
+              walk f sc old new (S pos)
+                   {| q_iter := q_iter st2; q_reg := q_reg st2; q_same := q_same st2; q_active := q_active st2 ++ [h];
+                      q_val := q_val st2; q_calls := q_calls st2 |}
+          end
+      end
+  end.
+
+Record rcase2 := { rc2_subs : list Z; rc2_script : list (Z * haction2); rc2_init : Z; rc2_values : list Z }.
+Fixpoint run_rounds2 (sc : list (Z * haction2)) (vs : list Z) (reg : list Z) (val : Z) : list (list Z) :=
+  match vs with
+  | [] => []
+  | v :: t =>
+      match assign_re 400 sc v {| w_reg := reg; w_val := val; w_calls := [] |} with
+      | Some (wd, _) =>
+          (flat_map (fun c => [fst (fst c); snd (fst c); snd c]) (w_calls wd) ++ [-7] ++ w_reg wd ++ [-6; w_val wd])
+            :: run_rounds2 sc t (w_reg wd) (w_val wd)
+      | None => [[-3]]
+      end
+  end.
+Definition run_rcase2 (c : rcase2) : list (list Z) := run_rounds2 (rc2_script c) (rc2_values c) (rc2_subs c) (rc2_init c).
+
+Inductive anycase2 := Plain2 (c : case) | Reentrant2 (c : rcase) | ReentrantAssign (c : rcase2).
+Definition run_any2 (a : anycase2) : list (list Z) :=
+  match a with Plain2 c => run_case c | Reentrant2 c => run_rcase c | ReentrantAssign c => run_rcase2 c end.
